@@ -369,8 +369,20 @@ func (c CollectionPage) Equals(with Item) bool {
 	}
 	result := true
 	err := OnCollectionPage(with, func(w *CollectionPage) error {
+		// NOTE: current, first and last are compared below, they don't need to be
+		// compared a second time together with the rest of the collection
+		col := c
+		if w.Current != nil {
+			col.Current = nil
+		}
+		if w.First != nil {
+			col.First = nil
+		}
+		if w.Last != nil {
+			col.Last = nil
+		}
 		OnCollection(w, func(wo *Collection) error {
-			if !wo.Equals(c) {
+			if !wo.Equals(col) {
 				result = false
 				return nil
 			}
